@@ -95,7 +95,8 @@ def gen_slow(seed, k):
         elif kind == "hang_ign": acts = ["ignore:15", "child:20000", "hang"]; dur = None
         elif kind == "hang_out":
             # writes its last words when told to terminate: they must be captured although the attempt ends as a timeout
-            acts = [f"outn:out:{i}:3000:4096:0:bin", f"onsigw:15:0:{100 + i}:{rng.choice([10, 60000, 150000])}", "hang"]; dur = None
+            # (the pipe is enlarged so that the last write never blocks: the bytes are still in the pipe when the process is gone)
+            acts = [f"outn:out:{i}:3000:4096:0:bin", f"onsigw:15:0:{100 + i}:{[400000, 900000, 60000][i % 3] if k == 0 else rng.choice([10, 60000, 400000, 900000])}", "pipesz:1048576", "hang"]; dur = None
         else: acts = [f"onsig:15:7:{g // 2}", "hang"]; dur = None
         tests.append({"bin": b, "pkg": pkg, "name": name, "kind": kind, "dur": dur, "P": p, "K": kk, "G": g, "acts": acts})
         sc.test(b, name, acts)
